@@ -545,11 +545,10 @@ Proof.
   - unfold l_step, l_finish, after_req, after_app. brk; cbn; try (left; reflexivity); right; eexists; reflexivity.
   - unfold t_step. destruct (nth_error (c_thr c) i) as [t|]; [|left; reflexivity].
     unfold t_body, enter, t_next, set_thr.
-    destruct t as [h now b|h now b|a|a|sbj a|mu res x st rest|r].
-    + destruct (c_mu c); [left; reflexivity|]. cbn. destruct (ranges_head _); [|left; reflexivity].
-      destruct (verdict drift tv now b h0 h); left; reflexivity.
-    + destruct (verdict drift tv now b (c_cache c) h); left; reflexivity.
-    + destruct (ranges_head _); left; reflexivity.
+    destruct t as [h now b|h now b ph|a|a ph|sbj a|mu res x st rest|r].
+    + destruct (c_mu c); left; reflexivity.
+    + destruct (verdict drift tv now b (pick_head ph (c_cache c)) h); left; reflexivity.
+    + left; reflexivity.
     + left; reflexivity.
     + brk; left; reflexivity.
     + destruct st; brk; cbn; try (left; reflexivity). right. eexists. reflexivity.
@@ -586,12 +585,10 @@ Proof.
   - unfold t_step. destruct (nth_error (c_thr c) i) as [t|] eqn:En; [|exact HT].
     pose proof (proj1 (Forall_forall _ _) HT t (nth_error_In _ _ En)) as Ht.
     unfold t_body, enter, t_next, set_thr.
-    destruct t as [h now b|h now b|a|a|sbj a|mu res x st rest|r]; try exact HT.
-    + destruct (c_mu c); [exact HT|]. cbn. destruct (ranges_head _).
-      * destruct (verdict_shape drift tv now b h0 h) as [->|(res & w & r & ->)]; cbn; apply thr_wf_upd; auto; exact I.
-      * cbn. apply thr_wf_upd; auto.
-    + destruct (verdict_shape drift tv now b (c_cache c) h) as [->|(res & w & r & ->)]; cbn; apply thr_wf_upd; auto; exact I.
-    + destruct (ranges_head _); cbn; (apply thr_wf_upd; [exact HT|]); destruct a; exact Ht || exact I.
+    destruct t as [h now b|h now b ph|a|a ph|sbj a|mu res x st rest|r]; try exact HT.
+    + destruct (c_mu c); [exact HT|]. cbn. apply thr_wf_upd; [exact HT|]. destruct b. exact Ht.
+    + destruct (verdict_shape drift tv now b (pick_head ph (c_cache c)) h) as [->|(res & w & r & ->)]; cbn; apply thr_wf_upd; auto; exact I.
+    + cbn. apply thr_wf_upd; [exact HT|]. destruct a; exact Ht || exact I.
     + cbn. apply thr_wf_upd; [exact HT|]. destruct a; exact Ht || exact I.
     + brk; cbn; (apply thr_wf_upd; [exact HT|]); exact I.
     + destruct st; brk; cbn; (apply thr_wf_upd; [exact HT|]); try exact I.
@@ -622,7 +619,8 @@ Proof.
   - unfold l_step, l_finish, after_req, after_app.
     destruct (c_loop c) as [| |ph|p|from to|from to|k from to|k hs|k hs nh|k hs|oto lst|] eqn:Elp.
     + brk; cbn; rewrite ?Heqr; exact Hri.
-    + brk; cbn; rewrite ?Heqr; exact Hri.
+    + cbn; exact Hri.
+    + cbn; exact Hri.
     + destruct (_ <=? _); [|cbn; exact Hri].
       destruct (remove_upto_spec (h_height (c_cache c)) _ Hri) as (rs' & -> & Hri' & _). cbn. exact Hri'.
     + destruct (ranges_first_spec _ Hri) as (Hri' & _). destruct (ranges_first (c_pend c)) eqn:Ef; cbn; exact Hri'.
@@ -637,11 +635,9 @@ Proof.
     + exact Hri.
   - unfold t_step. destruct (nth_error (c_thr c) i) as [t|] eqn:En; [|exact Hri].
     unfold t_body, enter, t_next, set_thr.
-    destruct t as [h now b|h now b|a|a|sbj a|mu res x st rest|r]; try exact Hri.
-    + destruct (c_mu c); [exact Hri|]. cbn. destruct (ranges_head _); [|exact Hri].
-      destruct (verdict_shape drift tv now b h0 h) as [->|(res & w & r & ->)]; exact Hri.
-    + destruct (verdict_shape drift tv now b (c_cache c) h) as [->|(res & w & r & ->)]; exact Hri.
-    + destruct (ranges_head _); exact Hri.
+    destruct t as [h now b|h now b ph|a|a ph|sbj a|mu res x st rest|r]; try exact Hri.
+    + destruct (c_mu c); exact Hri.
+    + destruct (verdict_shape drift tv now b (pick_head ph (c_cache c)) h) as [->|(res & w & r & ->)]; exact Hri.
     + brk; exact Hri.
     + destruct st; brk; cbn; try exact Hri.
       apply rinv_add; [exact Hri|]. apply (i_P c HI). unfold all_hdrs.
@@ -763,7 +759,8 @@ Proof.
   unfold l_step, l_finish, after_req.
   destruct (c_loop c) as [| |ph|p|from to|from to|k from to|k hs|k hs nh|k hs|oto lst|] eqn:Elp.
   - destruct (c_trig c); (frm c HI Elp).
-  - destruct (ranges_head (c_pend c)); (frm c HI Elp).
+  - frm c HI Elp.
+  - frm c HI Elp.
   - destruct (_ <=? _); [|frm c HI Elp].
     destruct (ranges_remove_upto (h_height (c_cache c)) (c_pend c)); frm c HI Elp.
   - destruct (ranges_first (c_pend c)); (frm c HI Elp).
@@ -884,14 +881,11 @@ Proof.
   unfold t_step. destruct (nth_error (c_thr c) i) as [t|] eqn:En; [|exact Hsame].
   assert (Hi : (i < length (c_thr c))%nat) by (apply nth_error_Some; congruence).
   unfold t_body, enter, t_next.
-  destruct t as [h now b|h now b|a|a|sbj a|mu res x st rest|r].
-  - destruct (c_mu c); [exact Hsame|]. cbn. destruct (ranges_head (c_pend c)).
-    + destruct (verdict_shape drift tv now b h0 h) as [->|(res & w & r & ->)];
-        fthr c i tt En HI.
-    + fthr c i tt En HI.
-  - destruct (verdict_shape drift tv now b (c_cache c) h) as [->|(res & w & r & ->)];
+  destruct t as [h now b|h now b ph|a|a ph|sbj a|mu res x st rest|r].
+  - destruct (c_mu c); [exact Hsame|]. fthr c i tt En HI.
+  - destruct (verdict_shape drift tv now b (pick_head ph (c_cache c)) h) as [->|(res & w & r & ->)];
       fthr c i tt En HI.
-  - destruct (ranges_head (c_pend c)); fthr c i tt En HI.
+  - fthr c i tt En HI.
   - fthr c i tt En HI.
   - destruct a as [x|]; [destruct (_ <=? _)|]; fthr c i tt En HI.
   - assert (HPx : P x) by (apply (thr_P c i _ x HI En); cbn [thr_hdrs]; apply in_or_app; right; left; reflexivity).
@@ -1304,6 +1298,9 @@ Proof.
   - pose proof (rinv_head _ Hri) as Hh. destruct (ranges_head (c_pend c)) as [p|] eqn:Ep; unfold qpc; cbn.
     + destruct Hh as [_ Hmax]. intros q Hq Hlt. specialize (Hmax q Hq). lia.
     + intros Hne. contradiction.
+  - unfold qpc. cbn. rewrite pick_height. destruct ph as [p|].
+    + intros q Hq Hlt. apply (woke_ext c); try reflexivity. apply (HQ q Hq). lia.
+    + intros q Hq Hlt. apply (woke_ext c); try reflexivity. apply HQ. intros E. change (In q (ranges_all (c_pend c))) in Hq. rewrite E in Hq. destruct Hq.
   - destruct (N.leb_spec (h_height p) (h_height (c_cache c))) as [Hle|Hgt].
     + destruct (remove_upto_spec (h_height (c_cache c)) _ Hri) as (rs' & -> & _ & Hm). unfold qpc. cbn.
       intros Hne. left. destruct (ranges_all rs') as [|y l] eqn:Ey; [contradiction|].
@@ -1370,6 +1367,7 @@ Proof.
   - intros Hne. destruct (ranges_all (c_pend c')) as [|y l] eqn:Ey; [contradiction|].
     destruct (Hp y (or_introl eq_refl)) as [Hin|Hwk]; [|left; exact Hwk].
     destruct HQ as [H|H]; [intros E0; rewrite E0 in Hin; destruct Hin|left; apply Hw; exact H|right; exact H].
+  - destruct ph as [p|]; [apply HT; exact HQ|apply HP; exact HQ].
   - destruct HQ as [A B]. split; [apply HT; exact A|apply Hf; exact B].
 Qed.
 
@@ -1402,12 +1400,10 @@ Lemma t_step_frame i c :
 Proof.
   unfold t_step. destruct (nth_error (c_thr c) i) as [t|]; [|auto].
   unfold t_body, enter, t_next, set_thr.
-  destruct t as [h now b|h now b|a|a|sbj a|mu res x st rest|r].
-  - destruct (c_mu c); [auto|]. cbn. destruct (ranges_head _).
-    + destruct (verdict_shape drift tv now b h0 h) as [->|(res & w & r & ->)]; cbn; repeat split; auto; intros; apply nth_upd_other; assumption.
-    + cbn; repeat split; auto; intros; apply nth_upd_other; assumption.
-  - destruct (verdict_shape drift tv now b (c_cache c) h) as [->|(res & w & r & ->)]; cbn; repeat split; auto; intros; apply nth_upd_other; assumption.
-  - destruct (ranges_head _); cbn; repeat split; auto; intros; apply nth_upd_other; assumption.
+  destruct t as [h now b|h now b ph|a|a ph|sbj a|mu res x st rest|r].
+  - destruct (c_mu c); [auto|]. cbn; repeat split; auto; intros; apply nth_upd_other; assumption.
+  - destruct (verdict_shape drift tv now b (pick_head ph (c_cache c)) h) as [->|(res & w & r & ->)]; cbn; repeat split; auto; intros; apply nth_upd_other; assumption.
+  - cbn; repeat split; auto; intros; apply nth_upd_other; assumption.
   - cbn; repeat split; auto; intros; apply nth_upd_other; assumption.
   - brk; cbn; repeat split; auto; intros; apply nth_upd_other; assumption.
   - destruct st; brk; cbn; repeat split; auto; intros; apply nth_upd_other; assumption.
@@ -1426,11 +1422,10 @@ Proof.
   unfold t_step. destruct (nth_error (c_thr c) i) as [t|] eqn:En; [|left; reflexivity].
   assert (Hi : (i < length (c_thr c))%nat) by (apply nth_error_Some; congruence).
   unfold t_body, enter, t_next, set_thr.
-  destruct t as [h now b|h now b|a|a|sbj a|mu res x st rest|r].
-  - destruct (c_mu c); [left; reflexivity|]. cbn. destruct (ranges_head _); [|left; reflexivity].
-    destruct (verdict_shape drift tv now b h0 h) as [->|(res & w & r & ->)]; left; reflexivity.
-  - destruct (verdict_shape drift tv now b (c_cache c) h) as [->|(res & w & r & ->)]; left; reflexivity.
-  - destruct (ranges_head _); left; reflexivity.
+  destruct t as [h now b|h now b ph|a|a ph|sbj a|mu res x st rest|r].
+  - destruct (c_mu c); left; reflexivity.
+  - destruct (verdict_shape drift tv now b (pick_head ph (c_cache c)) h) as [->|(res & w & r & ->)]; left; reflexivity.
+  - left; reflexivity.
   - left; reflexivity.
   - brk; left; reflexivity.
   - destruct st; brk; cbn; try (left; reflexivity).
@@ -1524,3 +1519,52 @@ Proof.
   - apply (Hx Hres) in Hin. lia.
   - unfold reserved in Hres. rewrite El in Hres. cbn in Hres. rewrite Hres in Hin. destruct Hin.
 Qed.
+
+(** ** a learner call never replaces the header at the shim's head: a header of
+    the cached head's height with another hash is refused by the shim
+    (errNonAdjacent, ignored by setLocalHead); nothing is written, and since the
+    head is not below it the header is not added to pending either *)
+Lemma wrap_succ_ne n : n < two64 -> wrap64 (n + 1) <> n.
+Proof.
+  intros H. unfold wrap64. destruct (N.eq_dec (n + 1) two64) as [E|E].
+  - rewrite E, N.mod_same by (unfold two64; lia). unfold two64 in *. lia.
+  - rewrite N.mod_small by lia. lia.
+Qed.
+
+Lemma same_height_refused (cur x : hdr) :
+  h_height cur < two64 -> h_height x = h_height cur -> h_id x <> h_id cur -> shim_check cur [x] = ShimNonAdj.
+Proof.
+  intros Hb Hh Hi. unfold shim_check. rewrite Hh, N.leb_refl. cbn [shim_walk]. rewrite Hh, N.eqb_refl.
+  destruct (N.eqb_spec (h_id x) (h_id cur)) as [E|_]; [contradiction|]. cbn [andb].
+  destruct (N.eqb_spec (h_height cur) (wrap64 (h_height cur + 1))) as [E|_]; [|reflexivity].
+  exfalso. symmetry in E. revert E. apply wrap_succ_ne. exact Hb.
+Qed.
+
+Section head_kept.
+Variables (drift : Z) (tv : hdr -> hdr -> tvres).
+
+Lemma head_not_replaced (i : nat) (c : cfg) mu res x rest :
+  nth_error (c_thr c) i = Some (TRun mu res x SL0 rest) ->
+  h_height (c_cache c) < two64 -> h_height x = h_height (c_cache c) -> h_id x <> h_id (c_cache c) ->
+  let c1 := t_step drift tv i c in
+  let c2 := t_step drift tv i c1 in
+  nth_error (c_thr c1) i = Some (TRun mu res x SL3 rest) /\
+  c_store c2 = c_store c /\ c_cache c2 = c_cache c /\ c_pend c2 = c_pend c /\ c_trig c2 = c_trig c /\
+  nth_error (c_thr c2) i = Some (match rest with [] => TDone res | y :: r => TRun mu res y SL0 r end).
+Proof.
+  intros Hn Hb Hh Hi. cbn zeta.
+  assert (Hlt : (i < length (c_thr c))%nat) by (apply nth_error_Some; congruence).
+  assert (E1 : t_step drift tv i c = set_thr i (TRun mu res x SL3 rest) c).
+  { unfold t_step. rewrite Hn. cbn [t_body]. rewrite (same_height_refused _ _ Hb Hh Hi). reflexivity. }
+  rewrite E1.
+  assert (Hn1 : nth_error (c_thr (set_thr i (TRun mu res x SL3 rest) c)) i = Some (TRun mu res x SL3 rest)).
+  { unfold set_thr. cbn. apply nth_upd_same. exact Hlt. }
+  split; [exact Hn1|].
+  unfold t_step at 1 2 3 4 5. rewrite Hn1. cbn [t_body].
+  assert (Hc : c_cache (set_thr i (TRun mu res x SL3 rest) c) = c_cache c) by reflexivity.
+  rewrite Hc, Hh, N.leb_refl.
+  unfold t_next. destruct rest as [|y r].
+  - destruct mu; unfold set_thr; cbn; repeat split; try reflexivity; apply nth_upd_same; rewrite upd_length; exact Hlt.
+  - unfold set_thr; cbn; repeat split; try reflexivity. apply nth_upd_same; rewrite upd_length; exact Hlt.
+Qed.
+End head_kept.
